@@ -46,4 +46,16 @@ PROPS = {
                                   "order-independence of Extend is decided by the semantic oracle on explored inputs, not yet by a theorem"],
         assumptions=["no NaN, no -0 ordinates (property excludes NaN; math.Min(+0,-0) is not modelled)"],
     ),
+    "C09": dict(
+        modules=["GeomVerif.Properties.C09"],
+        n_quick=15000, n_thorough=200000, thorough_seeds=4, min_theorems=7,
+        rule="well-formed geometries of all 7 types x layouts XY/XYZ/XYM/XYZM/Layout(5)/Layout(7); rings closed; parts empty with P=1/4, "
+             "5% long runs (50..200 vertices); empty rings / polygons at any position; ordinate scales: small integers, dyadic 1e4, 1e9, "
+             "2^200, and a far-offset tiny-extent cluster; plus the repaired D1 inputs. Go's Area/Length bits are compared with the Lean Float "
+             "mirror (bit-exact) and with exact rational arithmetic within (n+c)*2^-52*sum|terms|. non-trivial = input longer than 24 characters",
+        trusted_base=TB_COMMON + ["modelled: flat.go doubleArea1-3/length1-3 and the per-type Area/Length wrappers",
+                                  "Lean Float (+,-,*,/,sqrt) = IEEE-754 binary64 correctly rounded, same as Go on amd64 (no FMA); the float rounding bound itself "
+                                  "is NOT a theorem: it is evaluated per explored input in exact rational arithmetic (Spec/C09.lean)"],
+        assumptions=["finite ordinates of magnitude <= 2^200", "rings are closed (first vertex = last vertex) for the area oracle"],
+    ),
 }
